@@ -498,6 +498,10 @@ class Response:
         if self._cookies is None:
             self._cookies = http_cookies.SimpleCookie()
 
+        # NOTE: SimpleCookie would otherwise reuse the existing morsel along
+        #   with the attributes of a previously set cookie of the same name.
+        self._cookies.pop(name, None)
+
         try:
             self._cookies[name] = value
         except http_cookies.CookieError as e:  # pragma: no cover
@@ -633,6 +637,10 @@ class Response:
         # basically tell the browser to immediately expire the cookie,
         # thus removing it from future request objects.
         self._cookies[name]['expires'] = -1
+
+        # NOTE: Max-Age takes precedence over Expires (RFC 6265, 5.3), so a
+        #   value left behind by an earlier set_cookie() must not survive.
+        self._cookies[name]['max-age'] = ''
 
         # NOTE(CaselIT): Set SameSite to Lax to avoid setting invalid cookies.
         # See https://developer.mozilla.org/en-US/docs/Web/HTTP/Headers/Set-Cookie/SameSite#Fixing_common_warnings  # noqa: E501
